@@ -34,7 +34,7 @@ Qed.
 
 (* re-issue of the deferred NAK sequence after the NAK timer expired below the limit *)
 Lemma dlsh_reissue : forall s r eos t maxn,
-  p_deferred (d_p s) = true -> p_rcfg (d_p s) = Some r -> p_file_size_eof (d_p s) = Some eos ->
+  p_deferred (d_p s) = true -> p_disp (d_p s) <> DISP_CANCELED -> p_rcfg (d_p s) = Some r -> p_file_size_eof (d_p s) = Some eos ->
   (p_tracker (d_p s) <> [] \/ p_md_missing (d_p s) = true) ->
   p_proc_timer (d_p s) = Some t -> timed_out (now_d s) t = true -> p_nak_counter (d_p s) + 1 <> r_nak_limit r ->
   max_seg_reqs (r_max_packet r) (p_conf (d_p s)) = Some maxn ->
@@ -43,8 +43,9 @@ Lemma dlsh_reissue : forall s r eos t maxn,
        <| d_p ::= (fun p => p <| p_nak_counter ::= (fun c => c + 1) |> <| p_proc_timer := Some (now_d s, snd t) |>) |>,
      Ok tt).
 Proof.
-  intros s r eos t maxn Hdef Hr Heof Hmiss Ht Hto Hcnt Hm. unfold deferred_lost_segment_handling.
-  rewrite bind_gp, Hdef. cbn [negb]. rewrite bind_rcfg, Hr, bind_gp, Heof, bind_gp, bind_gp.
+  intros s r eos t maxn Hdef Hnc Hr Heof Hmiss Ht Hto Hcnt Hm. unfold deferred_lost_segment_handling.
+  assert (p_disp (d_p s) =? DISP_CANCELED = false) as Hdc by (apply Z.eqb_neq; exact Hnc).
+  rewrite bind_gp, Hdef. cbn [negb]. rewrite bind_gp, Hdc. rewrite bind_rcfg, Hr, bind_gp, Heof, bind_gp, bind_gp.
   rewrite (missing_cond s Hmiss). rewrite bind_gp. unfold now at 1. rewrite bind_gets, Ht.
   unfold now_d in *. rewrite Hto. cbn [negb].
   rewrite bind_ret, bind_gp. cbn [negb andb].
@@ -126,18 +127,19 @@ Definition hh : hdr := set_dir TOWARDS_SENDER cf.
 
 Lemma nif_reissue : forall k mdm maxn fstat fcond disp tmo c ackt ackc nw fs lg,
   (trk <> [] \/ mdm = true) -> max_seg_reqs (r_max_packet r) cf = Some maxn -> c + 1 <> Z.of_nat N ->
+  disp <> DISP_CANCELED ->
   let naks := nak_seq hh eos maxn mdm trk in
   non_idle_fsm (S k) None (mkG mdm (wstep mdm) 0 [] fstat fcond disp (Some (nw, tmo)) c ackt ackc (tmo + nw) fs lg) =
   (mkG mdm (wstep mdm) (0 + zlen naks) naks fstat fcond disp (Some (tmo + nw, tmo)) (c + 1) ackt ackc (tmo + nw) fs lg,
    Ok tt).
 Proof.
-  intros k mdm maxn fstat fcond disp tmo c ackt ackc nw fs lg Hmiss Hmax Hc naks. subst naks.
+  intros k mdm maxn fstat fcond disp tmo c ackt ackc nw fs lg Hmiss Hmax Hc Hnc naks. subst naks.
   assert (c + 1 <> r_nak_limit r) as Hc' by (rewrite HN; exact Hc).
   unfold mkG, wstep. cbn [non_idle_fsm].
   unfold fsm_advancement, step_is, get_step, handle_waiting_for_missing_metadata.
   destruct mdm; msimp.
   all: match goal with |- context[deferred_lost_segment_handling ?st] =>
-    rewrite (dlsh_reissue st r eos (nw, tmo) maxn eq_refl eq_refl eq_refl Hmiss eq_refl (timer_expired_d nw tmo)
+    rewrite (dlsh_reissue st r eos (nw, tmo) maxn eq_refl Hnc eq_refl eq_refl Hmiss eq_refl (timer_expired_d nw tmo)
                Hc' Hmax) end.
   all: rewrite enq_eq; cbn [d_p p_conf p_md_missing p_tracker d_queue d_ready app snd now_d d_env e_now].
   all: match goal with |- context[(?st, Ok tt)] => nstate st end.
@@ -160,12 +162,12 @@ Qed.
 (* the N-th expiry: NAK Limit Reached -> notice of cancellation; the same call completes the cancelled transaction,
    queues Finished (NAK Limit Reached) and starts the Positive ACK procedure *)
 Lemma nif_limit_cancelled : forall k mdm fstat fcond disp tmo c ackt ackc nw fs lg,
-  (trk <> [] \/ mdm = true) -> c + 1 = Z.of_nat N ->
+  (trk <> [] \/ mdm = true) -> c + 1 = Z.of_nat N -> disp <> DISP_CANCELED ->
   non_idle_fsm (S k) None (mkG mdm (wstep mdm) 0 [] fstat fcond disp (Some (nw, tmo)) c ackt ackc (tmo + nw) fs lg) =
   non_idle_fsm (S k) None (mkG mdm DS_TRANSFER_COMPLETION 0 [] fstat C_NAK_LIMIT DISP_CANCELED (Some (nw, tmo)) c ackt ackc
                              (tmo + nw) fs (EvFault FH_CANCEL a b C_NAK_LIMIT pr :: lg)).
 Proof.
-  intros k mdm fstat fcond disp tmo c ackt ackc nw fs lg Hmiss Hc.
+  intros k mdm fstat fcond disp tmo c ackt ackc nw fs lg Hmiss Hc Hnc.
   assert (c + 1 = r_nak_limit r) as Hc' by (rewrite HN; exact Hc).
   assert (get_fault_handler (l_faults cfg) C_NAK_LIMIT <> Some FH_IGNORE) as Hni by (rewrite Hfh; discriminate).
   pose proof (fun st => dst_nak_limit st r eos (nw, tmo)) as Hlim.
@@ -174,13 +176,13 @@ Proof.
   unfold fsm_advancement, step_is, get_step, handle_waiting_for_missing_metadata.
   destruct mdm; msimp.
   all: match goal with |- context[deferred_lost_segment_handling ?st] =>
-    rewrite (Hlim st eq_refl eq_refl eq_refl Hmiss eq_refl (timer_expired_d nw tmo) Hc' Hni) end.
+    rewrite (Hlim st eq_refl Hnc eq_refl eq_refl Hmiss eq_refl (timer_expired_d nw tmo) Hc' Hni) end.
   all: rewrite Hdf; cbn [fst snd].
   all: msimp; reflexivity.
 Qed.
 
 Lemma nif_limit : forall k mdm fstat fcond disp tmo c ackt ackc nw fs lg,
-  (trk <> [] \/ mdm = true) -> c + 1 = Z.of_nat N ->
+  (trk <> [] \/ mdm = true) -> c + 1 = Z.of_nat N -> disp <> DISP_CANCELED ->
   let fstat' := if delf then FS_DISCARDED_DELIBERATELY else fstat in
   non_idle_fsm (S k) None (mkG mdm (wstep mdm) 0 [] fstat fcond disp (Some (nw, tmo)) c ackt ackc (tmo + nw) fs lg) =
   (mkG mdm DS_WAITING_FOR_FINISHED_ACK (0 + 1) [finished C_NAK_LIMIT fstat'] fstat' C_NAK_LIMIT DISP_CANCELED
@@ -189,8 +191,8 @@ Lemma nif_limit : forall k mdm fstat fcond disp tmo c ackt ackc nw fs lg,
        ((if l_ind_fin cfg then [EvFinished a b C_NAK_LIMIT deliv fstat' ffl] else []) ++
         EvFault FH_CANCEL a b C_NAK_LIMIT pr :: lg), Ok tt).
 Proof.
-  intros k mdm fstat fcond disp tmo c ackt ackc nw fs lg Hmiss Hc fstat'. subst fstat'.
-  rewrite (nif_limit_cancelled k mdm fstat fcond disp tmo c ackt ackc nw fs lg Hmiss Hc).
+  intros k mdm fstat fcond disp tmo c ackt ackc nw fs lg Hmiss Hc Hnc fstat'. subst fstat'.
+  rewrite (nif_limit_cancelled k mdm fstat fcond disp tmo c ackt ackc nw fs lg Hmiss Hc Hnc).
   pose proof (nif_completion r a b cfg stid ckt ckc clo ckty deliv ffl cf pr crc fsz fname (Some eos) mdo trk mdm ls le
                 true (Some (nw, tmo)) c rw Hms Hmode k fstat C_NAK_LIMIT ackt ackc (tmo + nw) fs
                 (EvFault FH_CANCEL a b C_NAK_LIMIT pr :: lg)) as H.
@@ -211,11 +213,11 @@ Definition waitF (mdm : bool) (fstat fcond disp : Z) (prt : option timer) (nakc 
 
 Lemma expire_reissue : forall mdm maxn fstat fcond disp ackt ackc fs lg c s,
   (trk <> [] \/ mdm = true) -> max_seg_reqs (r_max_packet r) cf = Some maxn ->
-  waitN mdm fstat fcond disp ackt ackc fs lg c s -> c + 1 <> Z.of_nat N ->
+  waitN mdm fstat fcond disp ackt ackc fs lg c s -> c + 1 <> Z.of_nat N -> disp <> DISP_CANCELED ->
   exists s', expire_d (r_nak_ms r) s = (s', Ok (nak_seq hh eos maxn mdm trk)) /\
              waitN mdm fstat fcond disp ackt ackc fs lg (c + 1) s'.
 Proof.
-  intros mdm maxn fstat fcond disp ackt ackc fs lg c s Hmiss Hmax (nw & ->) Hc.
+  intros mdm maxn fstat fcond disp ackt ackc fs lg c s Hmiss Hmax (nw & ->) Hc Hnc.
   exists (mkG mdm (wstep mdm) 0 [] fstat fcond disp (Some (r_nak_ms r + nw, r_nak_ms r)) (c + 1) ackt ackc
               (r_nak_ms r + nw) fs lg).
   split; [|exists (r_nak_ms r + nw); reflexivity].
@@ -224,7 +226,7 @@ Proof.
             <| d_env ::= (fun e => e <| e_now ::= Z.add (r_nak_ms r) |>) |>)
     with (mkG mdm (wstep mdm) 0 [] fstat fcond disp (Some (nw, r_nak_ms r)) c ackt ackc (r_nak_ms r + nw) fs lg).
   rewrite dsm_none by reflexivity.
-  rewrite (ca_ok _ _ _ _ (nif_reissue 2 mdm maxn fstat fcond disp (r_nak_ms r) c ackt ackc nw fs lg Hmiss Hmax Hc)).
+  rewrite (ca_ok _ _ _ _ (nif_reissue 2 mdm maxn fstat fcond disp (r_nak_ms r) c ackt ackc nw fs lg Hmiss Hmax Hc Hnc)).
   unfold drain_d, mkG. cbn [d_queue d_ready]. nres.
   replace (0 + zlen (nak_seq hh eos maxn mdm trk) - zlen (nak_seq hh eos maxn mdm trk)) with 0 by lia.
   reflexivity.
@@ -232,7 +234,7 @@ Qed.
 
 Lemma expire_limit : forall mdm fstat fcond disp ackt ackc fs lg c s,
   (trk <> [] \/ mdm = true) ->
-  waitN mdm fstat fcond disp ackt ackc fs lg c s -> c + 1 = Z.of_nat N ->
+  waitN mdm fstat fcond disp ackt ackc fs lg c s -> c + 1 = Z.of_nat N -> disp <> DISP_CANCELED ->
   let fstat' := if delf then FS_DISCARDED_DELIBERATELY else fstat in
   exists s' nw0, expire_d (r_nak_ms r) s = (s', Ok [finished C_NAK_LIMIT fstat']) /\
     waitF mdm fstat' C_NAK_LIMIT DISP_CANCELED (Some (nw0, r_nak_ms r)) c
@@ -240,14 +242,14 @@ Lemma expire_limit : forall mdm fstat fcond disp ackt ackc fs lg c s,
           ((if l_ind_fin cfg then [EvFinished a b C_NAK_LIMIT deliv fstat' ffl] else []) ++
            EvFault FH_CANCEL a b C_NAK_LIMIT pr :: lg) 0 s'.
 Proof.
-  intros mdm fstat fcond disp ackt ackc fs lg c s Hmiss (nw & ->) Hc fstat'.
+  intros mdm fstat fcond disp ackt ackc fs lg c s Hmiss (nw & ->) Hc Hnc fstat'.
   eexists. exists nw. split; [|exists (r_nak_ms r + nw); reflexivity].
   unfold expire_d.
   change (mkG mdm (wstep mdm) 0 [] fstat fcond disp (Some (nw, r_nak_ms r)) c ackt ackc nw fs lg
             <| d_env ::= (fun e => e <| e_now ::= Z.add (r_nak_ms r) |>) |>)
     with (mkG mdm (wstep mdm) 0 [] fstat fcond disp (Some (nw, r_nak_ms r)) c ackt ackc (r_nak_ms r + nw) fs lg).
   rewrite dsm_none by reflexivity.
-  rewrite (ca_ok _ _ _ _ (nif_limit 2 mdm fstat fcond disp (r_nak_ms r) c ackt ackc nw fs lg Hmiss Hc)).
+  rewrite (ca_ok _ _ _ _ (nif_limit 2 mdm fstat fcond disp (r_nak_ms r) c ackt ackc nw fs lg Hmiss Hc Hnc)).
   fold fstat'. unfold drain_d, mkG. cbn [d_queue d_ready]. nres.
   change (0 + 1 - zlen [finished C_NAK_LIMIT fstat']) with 0.
   reflexivity.
@@ -288,14 +290,14 @@ Proof.
 Qed.
 
 Lemma expires_reissue : forall mdm maxn fstat fcond disp ackt ackc fs lg,
-  (trk <> [] \/ mdm = true) -> max_seg_reqs (r_max_packet r) cf = Some maxn ->
+  (trk <> [] \/ mdm = true) -> max_seg_reqs (r_max_packet r) cf = Some maxn -> disp <> DISP_CANCELED ->
   forall m c s, waitN mdm fstat fcond disp ackt ackc fs lg c s -> c + Z.of_nat m < Z.of_nat N ->
   exists s', expires_d m (r_nak_ms r) s = (s', Ok (repeat (nak_seq hh eos maxn mdm trk) m)) /\
              waitN mdm fstat fcond disp ackt ackc fs lg (c + Z.of_nat m) s'.
 Proof.
-  intros mdm maxn fstat fcond disp ackt ackc fs lg Hmiss Hmax. induction m as [|m IH]; intros c s Hw Hlt.
+  intros mdm maxn fstat fcond disp ackt ackc fs lg Hmiss Hmax Hnc. induction m as [|m IH]; intros c s Hw Hlt.
   - exists s. split; [reflexivity|]. replace (c + Z.of_nat 0) with c by lia. exact Hw.
-  - destruct (expire_reissue mdm maxn fstat fcond disp ackt ackc fs lg c s Hmiss Hmax Hw) as (s1 & H1 & Hw1); [lia|].
+  - destruct (expire_reissue mdm maxn fstat fcond disp ackt ackc fs lg c s Hmiss Hmax Hw) as (s1 & H1 & Hw1); [lia|exact Hnc|].
     destruct (IH (c + 1) s1 Hw1) as (s2 & H2 & Hw2); [lia|].
     exists s2. split.
     + cbn [expires_d repeat]. rewrite H1, H2. reflexivity.
@@ -318,7 +320,7 @@ Qed.
 
 Lemma silent_from_waiting : forall mdm maxn fstat fcond disp ackt ackc fs lg s,
   (1 <= N)%nat -> (1 <= M)%nat -> (trk <> [] \/ mdm = true) ->
-  ((2 <= N)%nat -> max_seg_reqs (r_max_packet r) cf = Some maxn) ->
+  ((2 <= N)%nat -> max_seg_reqs (r_max_packet r) cf = Some maxn) -> disp <> DISP_CANCELED ->
   waitN mdm fstat fcond disp ackt ackc fs lg 0 s ->
   let fstat' := if delf then FS_DISCARDED_DELIBERATELY else fstat in
   let fin := finished C_NAK_LIMIT fstat' in
@@ -331,13 +333,13 @@ Lemma silent_from_waiting : forall mdm maxn fstat fcond disp ackt ackc fs lg s,
                (if l_ind_fin cfg then [EvFinished a b C_NAK_LIMIT deliv fstat' ffl] else []) ++
                EvFault FH_CANCEL a b C_NAK_LIMIT pr :: lg.
 Proof.
-  intros mdm maxn fstat fcond disp ackt ackc fs lg s H1N H1M Hmiss Hmax Hw fstat' fin.
+  intros mdm maxn fstat fcond disp ackt ackc fs lg s H1N H1M Hmiss Hmax Hnc Hw fstat' fin.
   assert (exists s1, expires_d (N - 1) (r_nak_ms r) s = (s1, Ok (repeat (nak_seq hh eos maxn mdm trk) (N - 1))) /\
                      waitN mdm fstat fcond disp ackt ackc fs lg (0 + Z.of_nat (N - 1)) s1) as (s1 & E1 & Hw1).
   { destruct (Nat.eq_dec N 1) as [->|Hne].
     - exists s. split; [reflexivity | exact Hw].
-    - apply expires_reissue; [exact Hmiss | apply Hmax; lia | exact Hw | lia]. }
-  destruct (expire_limit mdm fstat fcond disp ackt ackc fs lg _ s1 Hmiss Hw1) as (s2 & nw0 & E2 & Hw2); [lia|].
+    - apply expires_reissue; [exact Hmiss | apply Hmax; lia | exact Hnc | exact Hw | lia]. }
+  destruct (expire_limit mdm fstat fcond disp ackt ackc fs lg _ s1 Hmiss Hw1) as (s2 & nw0 & E2 & Hw2); [lia|exact Hnc|].
   fold fstat' in E2, Hw2. fold fin in E2.
   destruct (expires_resend _ _ _ _ _ _ _ _ (M - 1) 0 s2 Hw2) as (s3 & E3 & Hw3); [lia|].
   destruct (expire_abandon _ _ _ _ _ _ _ _ s3 Hw3) as (s4 & E4 & Hst & Hstep & Hq & Hrd & Hp & Hfs & Hlog); [lia|].
@@ -457,6 +459,42 @@ Proof.
   vm_compute. reflexivity.
 Qed.
 
+(* ------------------------------------------------------------------ counterexample to the statement of waves 1-7 *)
+(* Up to wave 7 the theorem had no hypothesis about the disposition (the deferred procedure did not look at it).
+   After the F35 repair the procedure of a cancelled transaction does nothing, so a state that waits for missing data
+   AND is marked cancelled satisfies every other hypothesis (N = 2, M = 1) and stays where it is at every expiry:
+   nothing is sent, no fault is declared, the step is kept.  Such a state is not reachable: every cancellation moves
+   the step to the transfer completion (or to the EOF ACK) in the same call (dest_cancelled, props/C12c.v); reachable
+   waiting states satisfy `p_disp (d_p s) <> DISP_CANCELED`, which is now a hypothesis. *)
+Definition cex2_r : rcfg := mkRcfg 1 2 (Some 4) 64 false false ACKED CK_NULL 700 1 2 false false 300 2.
+Definition cex2_s : dst :=
+  mkDst (mkLcfg 2 2 true true true true default_fault_table 1000 [cex2_r]) ST_BUSY DS_WAITING_FOR_MISSING_DATA
+    (Some (1, 5)) 0 []
+    (mkDP (Some (1, 5)) (Some cex2_r) None 0 false CK_NULL (mkFin DATA_INCOMPLETE FS_RETAINED C_FILE_SIZE_ERROR None)
+          DISP_CANCELED (mkHdr TOWARDS_SENDER ACKED false false 1 2 2 5 2) 4 [0; 0; 0; 0] (Some 20) [2] (Some 20) false
+          [(4, 20)] false 20 20 true (Some (0, 300)) 0 None 0)
+    (mkEnv 0 [([2], File [1; 2; 3; 4])] false []).
+Example statement_needs_not_cancelled :
+  r_nak_limit cex2_r = Z.of_nat 2 /\ r_ack_limit cex2_r = Z.of_nat 1 /\ 0 < r_ack_ms cex2_r /\
+  d_state cex2_s = ST_BUSY /\ d_step cex2_s = DS_WAITING_FOR_MISSING_DATA /\ d_queue cex2_s = [] /\ d_ready cex2_s = 0 /\
+  h_mode (p_conf (d_p cex2_s)) = ACKED /\ p_rcfg (d_p cex2_s) = Some cex2_r /\ p_tid (d_p cex2_s) = Some (1, 5) /\
+  p_deferred (d_p cex2_s) = true /\ p_file_size_eof (d_p cex2_s) = Some 20 /\ p_md_missing (d_p cex2_s) = false /\
+  p_tracker (d_p cex2_s) <> [] /\
+  p_proc_timer (d_p cex2_s) = Some (now_d cex2_s, r_nak_ms cex2_r) /\ p_nak_counter (d_p cex2_s) = 0 /\
+  max_seg_reqs (r_max_packet cex2_r) (p_conf (d_p cex2_s)) = Some 5 /\
+  get_fault_handler (l_faults (d_cfg cex2_s)) C_NAK_LIMIT = Some FH_CANCEL /\
+  p_disp (d_p cex2_s) = DISP_CANCELED /\
+  expires_d 2 (r_nak_ms cex2_r) cex2_s =
+    (cex2_s <| d_env ::= (fun e => e <| e_now := 600 |>) |>, Ok [[]; []]) /\
+  (* the same state, not cancelled: the NAK is issued again, then the limit fault cancels *)
+  (exists s', expires_d 2 (r_nak_ms cex2_r) (cex2_s <| d_p ::= (fun p => p <| p_disp := DISP_COMPLETED |>) |>) =
+     (s', Ok [[PNak (mkHdr TOWARDS_SENDER ACKED false false 1 2 2 5 2) 0 20 [(4, 20)]];
+              [PFinished (mkHdr TOWARDS_SENDER ACKED false false 1 2 2 5 2) C_NAK_LIMIT DATA_INCOMPLETE FS_RETAINED None]])).
+Proof.
+  repeat (split; [first [reflexivity | discriminate | (cbn; lia) | (vm_compute; reflexivity)]|]).
+  eexists. vm_compute. reflexivity.
+Qed.
+
 (* ------------------------------------------------------------------ props/C04d.v *)
 Lemma dest_silent_sender_bounded : forall (N M : nat) (s : dst) (r : rcfg) (a b eos maxn : Z),
   (1 <= N)%nat -> (1 <= M)%nat -> r_nak_limit r = Z.of_nat N -> r_ack_limit r = Z.of_nat M ->
@@ -465,7 +503,7 @@ Lemma dest_silent_sender_bounded : forall (N M : nat) (s : dst) (r : rcfg) (a b 
   d_step s = (if p_md_missing (d_p s) then DS_WAITING_FOR_METADATA else DS_WAITING_FOR_MISSING_DATA) ->
   d_queue s = [] -> d_ready s = 0 ->
   h_mode (p_conf (d_p s)) = ACKED -> p_rcfg (d_p s) = Some r -> p_tid (d_p s) = Some (a, b) ->
-  p_deferred (d_p s) = true -> p_file_size_eof (d_p s) = Some eos ->
+  p_deferred (d_p s) = true -> p_disp (d_p s) <> DISP_CANCELED -> p_file_size_eof (d_p s) = Some eos ->
   (p_tracker (d_p s) <> [] \/ p_md_missing (d_p s) = true) ->
   p_proc_timer (d_p s) = Some (now_d s, r_nak_ms r) -> p_nak_counter (d_p s) = 0 ->
   ((2 <= N)%nat -> max_seg_reqs (r_max_packet r) (p_conf (d_p s)) = Some maxn) ->
@@ -486,13 +524,13 @@ Lemma dest_silent_sender_bounded : forall (N M : nat) (s : dst) (r : rcfg) (a b 
                (if l_ind_fin (d_cfg s) then [EvFinished a b C_NAK_LIMIT (f_deliv f) fstatus' (f_fl f)] else []) ++
                EvFault FH_CANCEL a b C_NAK_LIMIT (p_progress (d_p s)) :: log_d s.
 Proof.
-  intros N M s r a b eos maxn H1N H1M HN HM Hms Hst Hstep Hq Hrd Hmode Hr Htid Hdef Heof Hmiss Ht Hc Hmax Hfh
+  intros N M s r a b eos maxn H1N H1M HN HM Hms Hst Hstep Hq Hrd Hmode Hr Htid Hdef Hnc Heof Hmiss Ht Hc Hmax Hfh
          h f del0 fstatus' fin naks.
   subst h f del0 fstatus' fin naks. unfold now_d, fs_d, log_d in *.
-  ddst s. cbn in Hst, Hstep, Hq, Hrd, Hmode, Hr, Htid, Hdef, Heof, Hmiss, Ht, Hc, Hmax, Hfh |- *.
+  ddst s. cbn in Hst, Hstep, Hq, Hrd, Hmode, Hr, Htid, Hdef, Hnc, Heof, Hmiss, Ht, Hc, Hmax, Hfh |- *.
   subst st step q ready rc tid dfr fse prt nakc.
   destruct (silent_from_waiting N M r a b cfg stid ckt ckc clo ckty deliv ffl cf pr crc fsz fname eos mdo trk ls le rw
-              HN HM Hms Hmode Hfh mdm maxn fstat fcond disp ackt ackc fs lg _ H1N H1M Hmiss Hmax
+              HN HM Hms Hmode Hfh mdm maxn fstat fcond disp ackt ackc fs lg _ H1N H1M Hmiss Hmax Hnc
               ltac:(exists nw; reflexivity))
     as (s1 & s' & E1 & E2 & Hst' & Hstep' & Hq' & Hrd' & Hp' & Hfs' & Hlog').
   destruct (nak_seq_naks (set_dir TOWARDS_SENDER cf) eos maxn mdm trk Hmiss) as [Hne Hall].
